@@ -442,7 +442,7 @@ class schur_pressure_correction {
                 AMGCL_TIC("Kuu diagonal");
                 if (prm.simplec_dia) {
                     Kuu_dia = std::make_shared<backend::numa_vector<value_type>>(nu, false);
-#pragma omp parallel
+#pragma omp parallel for
                     for(ptrdiff_t i = 0; i < nu; ++i) {
                         value_type s = math::zero<value_type>();
                         for(ptrdiff_t j = Kuu_loc->ptr[i], e = Kuu_loc->ptr[i+1]; j < e; ++j) {
